@@ -569,3 +569,94 @@ def registry(ops=(("append", "N1"), ("append", "N2"))):
   sc.info = {"ops": [list(o) for o in ops], "lock_attrs": [k for k, v in attrs.items() if isinstance(v, M.MRLock)], "initial_size": len(items),
              "codes": dict(sc.strings.codes)}
   return sc
+
+
+# ---- concurrent start() of the fabric (C13) -----------------------------------------------------------------------------------
+def fabric_start(scripts=(("start",), ("start",)), pool=4, prestarted=False):
+  """each caller thread runs a script of calls on one ActiveFabricSource: 'start', 'stop', 'is_alive'.
+  Threads created by start() come from a pool of `pool` modelled threads whose body is the delivery loop waiting on its queue."""
+  import miros.activeobject as ao
+  sc = Scenario("fabric_start")
+  signals_ns(sc)
+  run_event = sc.add(M.MEvent("fabric_event", 0))
+  qf = sc.add(M.MQueue("fifo_queue", 4))
+  ql = sc.add(M.MQueue("lifo_queue", 4))
+  ncallers = len(scripts)
+  threads = []
+  for j in range(pool):
+    t = sc.add(M.MThread("pool%d" % j, prog=ncallers + j, state=0))
+    threads.append(t)
+    sc.ghost["g.kind.%d" % j] = 0          # 1 fifo, 2 lifo once created
+  alloc = sc.add(M.MAlloc("thread_alloc", first=1))
+  fifo_attr = sc.add(M.MAttr("fabric.fifo_thread", NONE))
+  lifo_attr = sc.add(M.MAttr("fabric.lifo_thread", NONE))
+  fifo_attr.typ = lifo_attr.typ = ("obj", "Thread")
+  saved = (ao.FiberThreadEvent.instance,)
+  real = ao.ActiveFabricSource()
+  ao.FiberThreadEvent.instance = saved[0]
+  attrs = bind_instance(sc, real, "fabric", {"fabric_task_event": run_event, "fifo_fabric_queue": qf, "lifo_fabric_queue": ql,
+                                             "fifo_subscriptions": SK(NONE, None), "lifo_subscriptions": SK(NONE, None),
+                                             "fifo_thread": fifo_attr, "lifo_thread": lifo_attr})
+  fabric = PyObj(ao.ActiveFabricSource, attrs, "fabric")
+  sc.ignored_attr_stores |= {"name", "daemon", "fabric_task_event"}
+  sc.by_identity.append((ao.FiberThreadEvent, SI(lambda comp, a, k: SO(run_event), "FiberThreadEvent")))
+
+  def new_thread(comp, args, kwargs):
+    target = kwargs.get("target")
+    kind = 1 if "fifo" in (getattr(target, "qualname", None) or getattr(getattr(target, "fn", None), "__name__", "") or "") else 2
+    idx = comp.op(alloc, "new", [], typ=("obj", "Thread"))
+
+    def fn(B, st, tid, _x=idx.x, _k=kind):
+      i = ir.evint(_x, st, B)
+      return {"g.kind.%d" % j: B.ite(B.eq(i, B.const(j + 1)), B.const(_k), st["g.kind.%d" % j]) for j in range(pool)}
+    comp.ghost(fn, "thread-created", uses=[idx.x])
+    return idx
+  sc.class_intrinsics.append((ao.Thread, new_thread))
+  stop_ev = RecordClass("event", ["signal"]).new(signal=SK(7, 7))
+  sc.class_intrinsics.append((ao.HsmEvent, lambda comp, a, k: stop_ev))
+  sc.class_intrinsics.append((ao.FabricEvent, lambda comp, a, k: SK(1, 1)))
+  main_src = """
+  def caller(fabric, script):
+    for_each_call()
+
+  def runner(ev, qf, ql, kind):
+    if kind == 1:
+      while ev.is_set():
+        qf.get()
+        qf.task_done()
+    else:
+      while ev.is_set():
+        ql.get()
+        ql.task_done()
+    finished()
+  """
+  for t, script in enumerate(scripts):
+    sc.ghost["g.alive.%d" % t] = NONE
+    c = Compiler(sc, t, "caller%d" % t)
+    body = "def caller(fabric):\n"
+    for k, call in enumerate(script):
+      if call == "is_alive":
+        body += "  record(fabric.is_alive())\n"
+      else:
+        body += "  fabric.%s()\n" % call
+
+    def record(comp, args, kwargs, _t=t):
+      x = comp.intx(args[0])
+      comp.ghost(lambda B, st, tid, _x=x: {"g.alive.%d" % _t: ir.evint(_x, st, B)}, "record", uses=[x])
+      return SK(NONE, None)
+    c.call_function(SF(node=driver(body, "caller"), closure={"record": SI(record)}, qualname="scenario.caller", globs={}), [SP(fabric)], {})
+    sc.programs.append(c.finish())
+  for j in range(pool):
+    c = Compiler(sc, ncallers + j, "delivery%d" % j)
+
+    def finished(comp, args, kwargs, _m=threads[j]):
+      comp._emit(ir.Op(target=_m, name="finish", args=[], exc={}, dst=None))
+      return SK(NONE, None)
+    # which queue a pool thread waits on depends on the kind it was created with: both loops have the same shape, a thread of
+    # unknown kind waits on its own private queue stand-in (the scenario never publishes)
+    c.call_function(SF(node=driver(main_src, "runner"), closure={"finished": SI(finished)}, qualname="scenario.runner", globs={}),
+                    [SO(run_event), SO(qf), SO(ql), SE(V("g.kind.%d" % j))], {})
+    sc.programs.append(c.finish())
+    sc.spawned[ncallers + j] = threads[j]
+  sc.info = {"ncallers": ncallers, "pool": pool, "scripts": [list(x) for x in scripts],              "lock_attrs": [k for k, v in attrs.items() if isinstance(v, M.MRLock)]}
+  return sc
